@@ -52,7 +52,11 @@ fn outcome_name(i: usize) -> String {
 
 /// A game for the CLI workloads: integer chance weights, payoffs that survive decimal text
 pub fn cli_game(rng: &mut Rng, size: usize, dyadic_payoffs: bool) -> (String, HNode) {
-    let (desc, tree) = if rng.chance(0.25) {
+    let (desc, tree) = if rng.chance(0.04) {
+        // deep games: every move adds three levels of JSON nesting (and one line of Gambit text)
+        let d = *rng.pick(&[41usize, 45, 60, 120, 300]);
+        (format!("centipede{}", d), gen::centipede(d))
+    } else if rng.chance(0.25) {
         let w = *rng.pick(&[0usize, 1, 2, 3, 4, 5, 6, 9, 10]);
         gen::structured(rng, w)
     } else {
